@@ -36,10 +36,9 @@
 (* the curve and [n]R = O, (c) the second evaluation of the same input     *)
 (* after unrelated library calls returned the identical object (R2 = R).   *)
 (***************************************************************************)
-EXTENDS FpRep, BigInt, SqrtMod, CurveX
+EXTENDS FpRep, BigInt, SqrtMod, CurveX, BinCurve
 HX == INSTANCE Xmd
 ED == INSTANCE Edwards
-BC == INSTANCE BinCurve
 
 (* ------------------------------------------------------------ generic field *)
 GA(F, x, y) == TAdd(F.T, F.k, x, y)
@@ -52,7 +51,7 @@ G0(F) == TZero(F.T, F.k)
 G1(F) == TOne(F.T, F.k)
 GNat(F, n) == IF F.k = 0 THEN FFromNat(n, F.T.p) ELSE <<FFromNat(n, F.T.p), <<>>>>
 GIsSq(F, x) == IF F.k = 0 THEN FIsSquare(x, F.T.p) ELSE Q2IsSquare(x, Nr(F.T, 1), F.T.p)
-GSqrt(F, x) == IF F.k = 0 THEN FSqrt(x, F.T.p) ELSE F2Sqrt(x, Nr(F.T, 1), F.T.p)
+GRoot(F, x) == IF F.k = 0 THEN FSqrt(x, F.T.p) ELSE F2Sqrt(x, Nr(F.T, 1), F.T.p)
 (* sgn0 of RFC 9380 section 4.1 for m = 1, 2 *)
 GSgn0(F, x) == IF F.k = 0 THEN BBit(x, 0)
                ELSE IF BBit(x[1], 0) = 1 \/ (x[1] = <<>> /\ BBit(x[2], 0) = 1) THEN 1 ELSE 0
@@ -73,7 +72,7 @@ SvdwX(F, A, B, Z, u) ==
         tv2  == GA(F, G1(F), tv1a)
         tv1  == GS(F, G1(F), tv1a)
         tv3  == GI(F, GM(F, tv1, tv2))
-        r    == GSqrt(F, SvdwC3sq(F, A, B, Z))
+        r    == GRoot(F, SvdwC3sq(F, A, B, Z))
         tv4  == IF GSgn0(F, r) = 1 THEN GN(F, r) ELSE r
         tv5  == GM(F, GM(F, GM(F, u, tv1), tv3), tv4)
         tv6  == GM(F, GM(F, GN(F, GNat(F, 4)), gz), GI(F, GA(F, GM(F, GNat(F, 3), GQ(F, Z)), GM(F, GNat(F, 4), A))))
@@ -86,7 +85,7 @@ SvdwX(F, A, B, Z, u) ==
 (* the point with abscissa x whose ordinate has the sign of u; ok = the root relation holds *)
 SignedPoint(F, A, B, x, u) ==
     LET gx == Gx(F, A, B, x)
-        y0 == GSqrt(F, gx)
+        y0 == GRoot(F, gx)
         y  == IF y0 = SqrtNone THEN y0 ELSE IF GSgn0(F, u) # GSgn0(F, y0) THEN GN(F, y0) ELSE y0
     IN  [inf |-> FALSE, x |-> x, y |-> y, ok |-> (y0 # SqrtNone /\ GQ(F, y) = gx)]
 
@@ -308,7 +307,7 @@ Basic2(e) ==
         dg == HX!Sha256(e.msg)
         nb == IF e.fpbytes < e.mdlen THEN e.fpbytes ELSE e.mdlen
         x  == FirstX2(e, <<FpOf(e, SubSeq(dg, 1, nb)), <<>>>>, c)
-        y  == GSqrt(F2(e), XRhs(x, c))
+        y  == GRoot(F2(e), XRhs(x, c))
     IN  [pt |-> ClearCof2(e, XPt(x, y)), ok |-> XM(c, y, y) = XRhs(x, c)]
 
 Valid2(e) == /\ e.R.c \in {1, 2, 3} /\ P2Canon(e, e.R)
@@ -367,11 +366,11 @@ ValidEd(e) == /\ e.R.c \in {1, 2, 3} /\ PCanon(e, e.R)
               /\ ED!EIsO(ED!EMulNat(BNorm(e.n.d), EdAbs(e, e.R), EdCrv(e)))
 EbCrv(e) == [f |-> BNorm(e.f), a |-> BNorm(e.ca), b |-> BNorm(e.cb)]
 EbAbs(e, P) ==       \* eb_map returns affine points (z = 1) or infinity (z = 0)
-    IF BNorm(P.z) = <<>> THEN BC!EInf ELSE BC!EPt(BNorm(P.x), BNorm(P.y))
+    IF BNorm(P.z) = <<>> THEN EInf ELSE EPt(BNorm(P.x), BNorm(P.y))
 ValidEb(e) == /\ e.R.c = 1 /\ BNorm(e.R.z) \in {<<>>, <<1>>}
               /\ BBits(BNorm(e.R.x)) <= e.m /\ BBits(BNorm(e.R.y)) <= e.m
-              /\ BC!EOnCurve(EbAbs(e, e.R), EbCrv(e))
-              /\ BC!EMulNat(BNorm(e.n.d), EbAbs(e, e.R), EbCrv(e)).inf
+              /\ EOnCurve(EbAbs(e, e.R), EbCrv(e))
+              /\ EMulNat(BNorm(e.n.d), EbAbs(e, e.R), EbCrv(e)).inf
 
 (* ------------------------------------------------------------ acceptance *)
 EpMsgOps == {"ep_map", "ep_map_sswum", "ep_map_basic", "ep_map_swift"}
